@@ -201,6 +201,13 @@ func runNilDeref(p *Program, r *RuleResult) {
 				case ssa.CallInstruction:
 					if t.Common().IsInvoke() {
 						x, what = t.Common().Value, "method call on a nil interface"
+					} else if sc := t.Common().StaticCallee(); sc != nil && p.isFirstParty(sc) {
+						// a value just found nil handed to a function that uses it right away
+						for i, a := range t.Common().Args {
+							if isNil(a) && p.derefsParam(sc, i, 0) {
+								x, what = a, "call of "+sc.Name()+" (which dereferences that argument unconditionally)"
+							}
+						}
 					}
 				}
 				if x == nil {
@@ -226,4 +233,38 @@ func runNilDeref(p *Program, r *RuleResult) {
 			r.add(k, "no-dereference-of-known-nil", Holds, "", fmt.Sprintf("%d dereferences examined", per[k]))
 		}
 	}
+}
+
+// derefsParam: fn uses its i-th parameter as a pointer or interface receiver in its entry
+// block (so on every call), directly or by handing it to a function that does.
+func (p *Program) derefsParam(fn *ssa.Function, i int, depth int) bool {
+	if fn == nil || len(fn.Blocks) == 0 || i >= len(fn.Params) || depth > 2 {
+		return false
+	}
+	prm := ssa.Value(fn.Params[i])
+	for _, in := range fn.Blocks[0].Instrs {
+		switch t := in.(type) {
+		case *ssa.FieldAddr:
+			if t.X == prm {
+				return true
+			}
+		case *ssa.UnOp:
+			if t.Op == token.MUL && t.X == prm {
+				return true
+			}
+		case ssa.CallInstruction:
+			com := t.Common()
+			if com.IsInvoke() && com.Value == prm {
+				return true
+			}
+			if sc := com.StaticCallee(); sc != nil && p.isFirstParty(sc) {
+				for j, a := range com.Args {
+					if a == prm && p.derefsParam(sc, j, depth+1) {
+						return true
+					}
+				}
+			}
+		}
+	}
+	return false
 }
